@@ -185,10 +185,76 @@ def runCurrent (c : Cfg) (pc : PCfg) (info full : Res (List Nat)) : List POp →
             | .error e => .error e
             | .ok t => pctOf v (t : Int)) :: runCurrent c pc info full ops mi
 
+theorem runCurrent_fixed (c : Cfg) (pc : PCfg) (info full : Res (List Nat)) (T : Nat)
+    (ops : List POp) (mi : Bytes) (hmi : vmTotal pc mi = .ok T)
+    (hops : ∀ b, POp.setMeminfo b ∈ ops → vmTotal pc b = .ok T) :
+    runCurrent c pc info full ops mi = runFixed c info full T ops := by
+  induction ops generalizing mi with
+  | nil => rfl
+  | cons op ops ih =>
+    have hops' : ∀ b, POp.setMeminfo b ∈ ops → vmTotal pc b = .ok T :=
+      fun b hb => hops b (List.mem_cons_of_mem _ hb)
+    cases op with
+    | setMeminfo b => simp only [runCurrent, runFixed, ih b (hops b (by simp)) hops']
+    | vm => simp only [runCurrent, runFixed, hmi, ih mi hmi hops']
+    | pct mt =>
+      simp only [runCurrent, runFixed, hmi, ih mi hmi hops', answer]
+
 /-- successful percentages of a history (`none` for everything else) -/
 def pctVals : List POut → List (Option Rat)
   | [] => []
   | .pct (.ok r) :: l => some r :: pctVals l
   | _ :: l => none :: pctVals l
+
+/-! ### the reading of the property in the presence of the cache: percent of the total physical
+    memory psutil LAST READ (by the latest `virtual_memory()`, or by the first `memory_percent()`
+    when none was made) — written without reference to the configuration flags -/
+
+/-- `last`: the total psutil read last (`none`: nothing read yet) -/
+def runLastRead (c : Cfg) (total : Bytes → Res Nat) (info full : Res (List Nat)) :
+    List POp → Bytes → Option Nat → List POut
+  | [], _, _ => []
+  | .setMeminfo b :: ops, _, last => .none :: runLastRead c total info full ops b last
+  | .vm :: ops, mi, last =>
+    match total mi with
+    | .ok t => .total (.ok t) :: runLastRead c total info full ops mi (some t)
+    | .error e => .total (.error e) :: runLastRead c total info full ops mi last
+  | .pct mt :: ops, mi, last =>
+    match pctValue c mt info full with
+    | .error e => .pct (.error e) :: runLastRead c total info full ops mi last
+    | .ok v =>
+      match truthy last with
+      | some t => .pct (pctOf v (t : Int)) :: runLastRead c total info full ops mi last
+      | none =>
+        match total mi with
+        | .ok t => .pct (pctOf v (t : Int)) :: runLastRead c total info full ops mi (some t)
+        | .error e => .pct (.error e) :: runLastRead c total info full ops mi last
+
+theorem runP_lastRead (c : Cfg) (pc : PCfg) (hp : pc.Good) (info full : Res (List Nat))
+    (ops : List POp) (mi : Bytes) (s : PState) :
+    runP c pc info full ops mi s = runLastRead c (vmTotal pc) info full ops mi s.cache := by
+  induction ops generalizing mi s with
+  | nil => rfl
+  | cons op ops ih =>
+    cases op with
+    | setMeminfo b => simp only [runP, runLastRead, ih]
+    | vm =>
+      simp only [runP, runLastRead, virtualMemory]
+      cases hm : vmTotal pc mi with
+      | error e => simp only [ih]
+      | ok t => simp only [hp.vmStoresTotal, if_true, ih]
+    | pct mt =>
+      simp only [runP, runLastRead, memoryPercentS]
+      cases hv : pctValue c mt info full with
+      | error e => simp only [ih]
+      | ok v =>
+        simp only [hp.pctUsesCache, if_true]
+        cases ht : truthy s.cache with
+        | some t => simp only [ih]
+        | none =>
+          simp only [virtualMemory]
+          cases hm : vmTotal pc mi with
+          | error e => simp only [ih]
+          | ok t => simp only [hp.vmStoresTotal, if_true, ih]
 
 end Psutil.C13
